@@ -129,6 +129,11 @@ def shape(tree):
     return levels, fstr, neg
 
 
+def has_boolean_shape(tree):
+    return any(isinstance(n, (ast.BoolOp, ast.IfExp)) or (isinstance(n, ast.UnaryOp) and isinstance(n.op, ast.Not))
+               for n in ast.walk(tree))
+
+
 def nontrivial_shape(tree):
     levels, fstr, neg = shape(tree)
     return len(levels) >= 2 or fstr or neg
@@ -717,6 +722,7 @@ def judge_l2(case, dbE=None):
 
     # ---- compiled forms: what did the decompiler make of it?  (its faults belong to C03) ---------------------------
     loud = False
+    decompiler_note = ''
     if form in COMPILED_FORMS:
         from pony.orm.decompiling import decompile
         is_gen = form == 'gen' or form in GEN_FAR_FORMS
@@ -773,9 +779,15 @@ def judge_l2(case, dbE=None):
         except Exception as e:
             same = False
         if not same:
-            res.update(status='inconclusive', message='decompiled tree is not equivalent to the source (C03 matter)')
+            # excused only for the shapes of C03's OPEN findings (conditional expressions / and / or / not, which the
+            # decompiler is known to re-bracket); any other difference is judged end to end like everything else: the
+            # user wrote an external expression and the database must get the value Python computes for it
             res['classes'].append('decompiler_mismatch')
-            return res
+            if has_boolean_shape(ast.parse(q_expr, mode='eval')):
+                res.update(status='inconclusive', message='decompiled tree is not equivalent to the source (open C03 shapes)')
+                return res
+            res['classes'].append('decompiler_mismatch_judged')
+            decompiler_note = ' [the tree rebuilt by the decompiler already differs from the source]'
         regen_trees = [copy.deepcopy(n) for n in d_ext]
     else:
         regen_trees = [copy.deepcopy(n) for n in ext_nodes]
@@ -806,7 +818,8 @@ def judge_l2(case, dbE=None):
     res['nontrivial'] = nt and err is None
     shown = ', '.join('%s = %s' % (t, ('raises ' + type(v).__name__) if isinstance(v, Exception) else repr(v))
                       for t, v in zip(ext_texts, values))
-    where = 'query %r (form %s); Python evaluates the external parts in the caller\'s scope as: %s' % (gen_text, form, shown)
+    where = 'query %r (form %s)%s; Python evaluates the external parts in the caller\'s scope as: %s' % (
+        gen_text, form, decompiler_note, shown)
     if py_raised is not None:
         if err is None:
             res.update(status='fail', message='%s; the query nevertheless executed and returned %r' % (where, got))
@@ -844,7 +857,233 @@ def judge_l2(case, dbE=None):
     return res
 
 
+CHAIN_FORMS = ('chain_gen', 'chain_str', 'chain_filter', 'chain_where')
+
+
+def judge_chain(case, dbE=None):
+    """case: {'level': 2, 'kind': 'chain', 'expr': condition text with x, 'form': one of CHAIN_FORMS,
+              'envs': [env, env, ...] (one per layer), 'env': envs[0], 'scopes': .., 'decoys': ..}
+    ONE piece of query code (a helper function) is stacked on its own result len(envs) times, each layer called with
+    its own values of the caller-scope names:  layer(layer(layer(E, v1), v2), v3).  Python's answer: the rows that
+    satisfy the condition under every layer's values."""
+    from pony.orm import db_session, rollback, commit
+    from pony.orm.core import ExprEvalError
+    if dbE is None:
+        dbE = make_db()
+    db, E = dbE
+    form = case['form']
+    envs = case['envs']
+    depth = len(envs)
+    res = {'status': 'ok', 'message': '', 'classes': ['L2', 'L2:chain', 'form:' + form, 'depth:%d' % min(depth, 4)],
+           'features': [], 'nontrivial': False}
+    scope = Scope(dict(case, env=envs[0]), E)
+    names = scope.cnames + scope.lnames            # these vary from layer to layer; module globals do not
+    layer_vals = [[G.decode_value(env.get(n, envs[0][n])) for n in names] for env in envs]
+    expr = ast.unparse(ast.parse(case['expr'], mode='eval'))
+    tree = ast.parse(expr, mode='eval').body
+    ext_nodes = maximal_external_subtrees(tree)
+    ext_texts = [ast.unparse(n) for n in ext_nodes]
+    feats = set()
+    for n in ext_nodes:
+        feats |= features(n)
+    res['features'] = sorted(feats)
+    gen_text = 'x for x in _src if ' + expr
+    res['query'] = '%d x [%s]' % (depth, gen_text)
+    params = ''.join(', ' + n for n in names)
+    lines = ['def _ext(_form%s):' % params,
+             '    return [%s]' % ''.join('lambda: (%s), ' % t for t in ext_texts),
+             'def _pyl(_form%s):' % params,
+             '    return lambda x: %s' % expr,
+             'def _layer(_form, _src%s):' % params,
+             "    if _form == 'chain_gen': return select(%s)" % gen_text,
+             "    if _form == 'gen_obj': return (%s)" % gen_text,
+             "    if _form == 'chain_str': return select(%r)" % gen_text,
+             "    _f = lambda x: %s" % expr,
+             "    if _form == 'lam_obj': return _f",
+             "    if _form == 'chain_filter': return _src.filter(_f)",
+             "    if _form == 'chain_where': return _src.where(_f)",
+             '    raise ValueError(_form)',
+             'def _start():',
+             '    return select(x for x in E)',
+             '']
+    g = dict(scope.globals)
+    exec(compile('\n'.join(lines), '<c04 chain>', 'exec'), g)
+
+    # Python's values of the external parts, layer by layer
+    values = []
+    py_raised = None
+    for vals in layer_vals:
+        row = []
+        for thunk in g['_ext']('ext', *vals):
+            try:
+                row.append(thunk())
+            except RecursionError:
+                raise
+            except Exception as e:
+                py_raised = e
+                row.append(e)
+        values.append(row)
+    if py_raised is None:
+        for row in values:
+            for v in row:
+                if (type(v) in (int, float) and not abs(v) <= 1000) or not in_domain(v):
+                    res.update(status='inconclusive', message='external value outside the domain: %r' % (v,))
+                    res['classes'].append('out_of_domain')
+                    return res
+    pyfuncs = [g['_pyl']('py', *vals) for vals in layer_vals]
+
+    # rows: some that pass every layer, and for each layer some that fail ONLY that layer (they tell the layers apart)
+    rows = []
+    if py_raised is None:
+        cands = [dict(DEFAULT_ROW, i=i, j=j) for i in sorted(range(-12, 13), key=lambda k: (abs(k), k)) for j in (-1, 2)]
+        strs = ['', 'a', 'ab']
+        for row in values:
+            for w in row:
+                if type(w) is str and len(w) <= 10:
+                    strs += [w[p:q] for p in range(len(w) + 1) for q in range(p, len(w) + 1)]
+        seen = set()
+        for w in strs:
+            if w not in seen:
+                seen.add(w)
+                cands.append(dict(DEFAULT_ROW, i=1, j=2, s=w))
+        buckets = {}
+        for r in cands[:300]:
+            try:
+                truth = tuple(bool(f(Row(id=0, **r))) for f in pyfuncs)
+            except RecursionError:
+                raise
+            except Exception as e:
+                res.update(status='inconclusive', message='Python raises for a row: %s' % type(e).__name__)
+                res['classes'].append('py_row_raises')
+                return res
+            buckets.setdefault(truth, []).append(r)
+        all_true = (True,) * depth
+        rows = list(buckets.get(all_true, [])[:3])
+        single = 0
+        for k in range(depth):
+            only_k = tuple(j != k for j in range(depth))
+            got_k = buckets.get(only_k, [])[:2]
+            single += bool(got_k)
+            rows += got_k
+        for truth in sorted(buckets):
+            if len(rows) >= 12:
+                break
+            if truth != all_true and sum(truth) != depth - 1:
+                rows += buckets[truth][:1]
+        if single >= 2:
+            res['classes'].append('layers_distinguished')
+    for k, r in enumerate(rows):
+        r['id'] = k + 1
+    with db_session:
+        E.select().delete(bulk=True)
+        stored = []
+        for r in rows:
+            obj = E(**r)
+            stored.append(Row(**dict((a, getattr(obj, a)) for a in r)))
+        commit()
+    expected = None
+    if py_raised is None:
+        expected = sorted(r.id for r in stored if all(f(r) for f in pyfuncs))
+    else:
+        res['classes'].append('python_raises')
+
+    decompiler_note = ''
+    if form != 'chain_str':
+        from pony.orm.decompiling import decompile
+        try:
+            with db_session:
+                obj = g['_layer']('gen_obj' if form == 'chain_gen' else 'lam_obj', E, *layer_vals[0])
+                dtree = copy.deepcopy(decompile(obj)[0])
+        except RecursionError:
+            raise
+        except Exception as e:
+            res.update(status='rejected', message='decompiler refused: %s: %s' % (type(e).__name__, e))
+            res['classes'].append('rej:decompiler_refused')
+            return res
+        if form == 'chain_gen':
+            ifs = dtree.generators[0].ifs
+            dbody = ifs[0] if len(ifs) == 1 else ast.BoolOp(ast.And(), list(ifs))
+        else:
+            dbody = dtree
+        if py_raised is None:
+            lam = ast.Expression(ast.Lambda(ast.arguments(posonlyargs=[], args=[ast.arg(QUERY_VAR)], kwonlyargs=[],
+                                                           kw_defaults=[], defaults=[]), copy.deepcopy(dbody)))
+            ast.fix_missing_locations(lam)
+            try:
+                code = compile(lam, '<c04 decompiled>', 'eval')
+                same = True
+                for vals, f in zip(layer_vals, pyfuncs):
+                    ns = dict(scope.globals)
+                    ns.update(zip(names, vals))
+                    dfunc = eval(code, ns)
+                    same = same and [bool(dfunc(r)) for r in stored] == [bool(f(r)) for r in stored]
+            except RecursionError:
+                raise
+            except Exception:
+                same = False
+            if not same:
+                res['classes'].append('decompiler_mismatch')
+                if has_boolean_shape(tree):
+                    res.update(status='inconclusive', message='decompiled tree is not equivalent to the source (open C03 shapes)')
+                    return res
+                decompiler_note = ' [the tree rebuilt by the decompiler already differs from the source]'
+
+    loud = False        # ast2src raises / its text does not compile for some external part: a loud refusal, not a wrong value
+    regen_nodes = ext_nodes if form == 'chain_str' else maximal_external_subtrees(dbody)
+    for n in regen_nodes:
+        try:
+            regenerate(copy.deepcopy(n))
+        except Rejected:
+            loud = True
+
+    got = err = None
+    with db_session:
+        try:
+            q = E if form in ('chain_gen', 'chain_str') else (E.select() if form == 'chain_filter' else g['_start']())
+            for vals in layer_vals:
+                q = g['_layer'](form, q, *vals)
+            got = sorted(o.id for o in q[:])
+        except RecursionError:
+            raise
+        except Exception as e:
+            err = e
+        rollback()
+    res['nontrivial'] = depth >= 2 and err is None and any(nontrivial_shape(n) for n in ext_nodes)
+    shown = '; '.join('layer %d: %s' % (k + 1, ', '.join(
+        '%s = %s' % (t, ('raises ' + type(v).__name__) if isinstance(v, Exception) else repr(v)) for t, v in zip(ext_texts, row)))
+        for k, row in enumerate(values))
+    where = '%d layers of the same code [%s] stacked on each other (form %s)%s; Python evaluates the external parts as: %s' % (
+        depth, gen_text, form, decompiler_note, shown)
+    if py_raised is not None:
+        if err is None:
+            res.update(status='fail', message='%s; the query nevertheless executed and returned %r' % (where, got))
+        else:
+            res['classes'].append('both_raise')
+        return res
+    if err is not None:
+        name = type(err).__name__
+        if isinstance(err, ExprEvalError):
+            res.update(status='fail', message='%s; Pony failed to evaluate its regenerated text: %s: %s' % (where, name, err))
+        elif loud:
+            res.update(status='rejected', message='%s: %s' % (name, err))
+            res['classes'].append('rej:loud_regeneration')
+        elif _allowed_rejection(err):
+            res.update(status='rejected', message='%s: %s' % (name, err))
+            res['classes'].append('rej:' + name)
+        else:
+            res.update(status='fail', message='%s; unexpected %s: %s' % (where, name, err))
+        return res
+    if got != expected:
+        res.update(status='fail', message='%s; rows %r; expected result %r, Pony returned %r'
+                                          % (where, [(r.id, r.i, r.j, r.s) for r in stored], expected, got))
+    res['classes'].append('accepted')
+    return res
+
+
 def judge(case, dbE=None):
+    if case.get('kind') == 'chain':
+        return judge_chain(case, dbE)
+
     return judge_l1(case) if case.get('level') == 1 else judge_l2(case, dbE)
 
 
@@ -905,6 +1144,10 @@ def minimise(case, still_reportable, dbE=None, budget=60):
         cands = []
         if cur['level'] == 1 or cur['kind'] == 'eq':
             cands = [dict(cur, expr=t) for t in _subexpression_texts(cur['expr'], cur['env'])]
+        elif cur['kind'] == 'chain':       # fewer layers
+            envs = cur['envs']
+            if len(envs) > 1:
+                cands = [dict(cur, envs=envs[:k] + envs[k + 1:], env=(envs[:k] + envs[k + 1:])[0]) for k in range(len(envs))]
         else:
             tree = ast.parse(cur['expr'], mode='eval').body
             for n in maximal_external_subtrees(tree):
@@ -923,7 +1166,7 @@ def minimise(case, still_reportable, dbE=None, budget=60):
                 improved = True
                 break
     cur = best[0]
-    if cur['level'] == 2 and (cur.get('decoys') or any(v != 'g' for v in cur['scopes'].values())):
+    if cur['level'] == 2 and cur.get('kind') != 'chain' and (cur.get('decoys') or any(v != 'g' for v in cur['scopes'].values())):
         c = dict((k, v) for k, v in cur.items() if k != 'features')
         c['decoys'] = {}
         c['scopes'] = dict((k, 'g') for k in cur['scopes'])
